@@ -23,12 +23,12 @@ def cfg(cls, mode, events='ebp', k=-1, action='await', arm_func='_init_child', f
     return c
 
 
-def record(spec, cdir, events='ebp', files=None, timeout=90, arm_func='_init_child', arm_cls=None, arm_caller=None):
+def record(spec, cdir, events='ebp', files=None, timeout=90, arm_func='_init_child', arm_cls=None, arm_caller=None, case_target='vlib.wcase:lifecycle'):
     """Reference run: returns (trace events, case result)."""
     sp = dict(spec)
     sp.pop('action', None)
     sp['expect_point'] = False
-    res = run_case('vlib.wcase:lifecycle', sp, cdir, timeout=timeout,
+    res = run_case(case_target, sp, cdir, timeout=timeout,
                    inject=cfg(arm_cls or spec['cls'], 'record', events=events, files=files, arm_func=arm_func, arm_caller=arm_caller))
     trace = []
     for f in glob.glob(os.path.join(cdir, 'trace.*.jsonl')):
@@ -69,11 +69,11 @@ def select(trace, tier, salt, kinds=EBP_KINDS, extra_repeats=12):
     return sorted(first + rest)
 
 
-def act(spec, cdir, k, action='await', events='ebp', files=None, timeout=90, arm_func='_init_child', arm_cls=None, arm_caller=None, **extra):
+def act(spec, cdir, k, action='await', events='ebp', files=None, timeout=90, arm_func='_init_child', arm_cls=None, arm_caller=None, case_target='vlib.wcase:lifecycle', **extra):
     sp = dict(spec)
     sp['expect_point'] = True
     sp['inject_action'] = action
-    return run_case('vlib.wcase:lifecycle', sp, cdir, timeout=timeout,
+    return run_case(case_target, sp, cdir, timeout=timeout,
                     inject=cfg(arm_cls or spec['cls'], 'act', events=events, k=k, action=action, files=files, arm_func=arm_func, arm_caller=arm_caller, **extra))
 
 
